@@ -10,7 +10,7 @@ INFO = {
             "x (a) every truncation offset of the canonical encoding and every single-byte replacement by ff/00, (b) every member in turn "
             "given each unbuildable value (wrong type, out of range, unencodable string, unknown label), (c) every member in turn replaced "
             "by an unsized or key-missing one for sizeof. Oracle: the reference interpreter's path at the failing read/field: "
-            "e.path == '(parsing)|(building)|(sizeof)' + ' -> name' for each enclosing named member. non-trivial = library and reference "
+            "e.path == '(parsing)|(building)|(sizeof)' + ' -> name' for each enclosing named member; build values with a list element too many/few or a dict member missing; sizeof with every context-parameter slot referring to a missing key. non-trivial = library and reference "
             "both reject with the same error class and the paths were compared; distinct = (shape, operation, input)",
     "bounds": {"quick": {"depth": 3}, "thorough": {"depth": 4}},
     "trusted_base": ["mc/ref.py path threading (a region delimiter reads its whole region itself, so a truncated payload fails at the delimiter's member)"],
@@ -154,6 +154,33 @@ def positions(t, v, prefix=()):
     return out
 
 
+def container_positions(v, prefix=()):
+    """paths to every list and dict inside a reference value (the containers themselves, not their leaves)"""
+    out = []
+    if isinstance(v, dict):
+        out.append(prefix)
+        for k, x in v.items():
+            out += container_positions(x, prefix + (k,))
+    elif isinstance(v, list):
+        out.append(prefix)
+        for i, x in enumerate(v):
+            out += container_positions(x, prefix + (i,))
+    return out
+
+
+def get_at(v, pos):
+    for k in pos:
+        v = v[k]
+    return v
+
+
+def misshapen(c):
+    """a container with one element too many / too few, or one member missing"""
+    if isinstance(c, list):
+        return ([c + [c[-1]]] if c else [c + [0]]) + ([c[:-1]] if c else []) + [c + c + [0]]
+    return [{k: x for k, x in c.items() if k != drop} for drop in c]
+
+
 def replace_at(v, pos, new):
     if not pos:
         return new
@@ -218,6 +245,20 @@ def measurable_twin(t):
     return t
 
 
+def _slot_terms():
+    """every class that takes a context parameter (the slot list of C05), referring to a key the context lacks"""
+    from .c05 import slots
+    out = []
+    for name, mk, kind in slots():
+        if name.startswith(("Bitwise", "BitStruct", "Computed", "Check", "StopIf", "Rebuild", "Default")):
+            continue        # zero-size or bit-level slots: no sizeof failure to locate / not addressable as a member here
+        out.append(mk(["this", "zz"]))
+    return out
+
+
+SLOT_TERMS = _slot_terms()
+
+
 def run_shape(t, tier, r):
     d = T.mk(t)
     tsig = T.sig_of(t, 3)
@@ -250,10 +291,22 @@ def run_shape(t, tier, r):
                 r.case(nontrivial=oc == "path-ok", outcome="build-" + oc, validated=1)
                 for z in vs:
                     r.violation(z["sig"], z["case"], z["detail"])
+        # ---- (b2) every list with an element too many / too few, every dict with a member missing
+        for pos in container_positions(v):
+            for newc in misshapen(get_at(v, pos)):
+                v2 = replace_at(v, pos, newc)
+                r.states += 1
+                want = ref_outcome(lambda: R.build(t, v2))
+                got = real_outcome(lambda: d.build(v2))
+                oc, vs = compare("build", t, tsig, want, got, {"op": "build", "term": t, "value": enc_value(v2)}, "build(%r)" % (v2,))
+                r.case(nontrivial=oc == "path-ok", outcome="build-" + oc, validated=1)
+                for z in vs:
+                    r.violation(z["sig"], z["case"], z["detail"])
     # ---- (c) sizeof with every member in turn unsized / key-missing
     for slot in member_slots(t):
         for new in (["VarInt"], ["Bytes", ["this", "zz"]], ["Bytes", ["lam", ["zz"]]], ["GreedyBytes"], ["Array", ["this", "zz"], BYTE],
-                    ["IfThenElse", ["this", "zz"], BYTE, BYTE], ["FixedSized", ["this", "zz"], ["GreedyBytes"]], ["Padded", ["this", "zz"], BYTE, b"\x00"]):
+                    ["IfThenElse", ["this", "zz"], BYTE, BYTE], ["FixedSized", ["this", "zz"], ["GreedyBytes"]], ["Padded", ["this", "zz"], BYTE, b"\x00"]) \
+                + tuple(SLOT_TERMS):
             try:
                 t2 = subst(t, slot, new)
                 d2 = T.mk(t2)
